@@ -586,6 +586,10 @@ def c03_r1(ctx):
             if len(apps) != 1 or other:
                 probs.append(f"a {'nullable' if nullable else 'non-null'} variable must become a{'n optional' if nullable else ' required'} parameter ({apps}, {other})")
             argv = o[0].env.get("arg")
+            seen_ = 0
+            while argv is not None and isinstance(strip_pre(argv), ast.Name) and o[0].env.get(strip_pre(argv).id) is not None and seen_ < 5:
+                argv = o[0].env.get(strip_pre(argv).id)
+                seen_ += 1
             if argv is None or not norm(strip_pre(argv)).startswith(f"generate_arg({pname}, "):
                 probs.append("the parameter is not named by process_name of the variable name")
         ctx.check(not probs, key(fi, f"variable nullable={nullable}"), "; ".join(probs), fi.loc(), okmsg=f"variable (nullable={nullable}): key = GraphQL name, value = its parameter, {'optional' if nullable else 'required'}")
@@ -646,30 +650,47 @@ def c03_r5(ctx):
     gv = repo.func("client_generators.client:ClientGenerator.get_variable_names")
     # locals obtained through variable_names[...] are renamed on clash
     o = [x for x in Interp(gv, lambda e: None).run() if x.kind == "return"]
-    mapped = o[0].env.get("mapped_variable_names") if o else None
-    mapped_names = [norm(x) for x in mapped.elts] if isinstance(mapped, ast.List) else []
+
+    def dr(e):
+        e = strip_pre(e)
+        while isinstance(e, ast.Name) and o and o[0].env.get(e.id) is not None:
+            e = strip_pre(o[0].env[e.id])
+        return e
+    ret = dr(o[0].value) if o and o[0].value is not None else None
+    comp = ret if isinstance(ret, ast.DictComp) else None
+    mapped = dr(comp.generators[0].iter) if comp is not None else None
+    mapped_names = [norm(x) for x in mapped.elts] if isinstance(mapped, (ast.List, ast.Tuple)) else []
     ci = repo.cls("client_generators.client:ClientGenerator")
     init_consts = {}
     for st in ci.methods["__init__"].node.body:
         if isinstance(st, ast.Assign) and isinstance(st.value, ast.Constant) and isinstance(st.targets[0], ast.Attribute):
             init_consts["self." + st.targets[0].attr] = st.value.value
     mapped_vals = {init_consts.get(m) for m in mapped_names}
-    # the mapping itself, in loop form (decided per clash scenario) or as a dict comprehension
-    def clash_atom(clash):
-        return lambda e: (clash if norm(strip_pre(e)).endswith(" in argument_names") else None)
-    good = bool(o)
-    comp = [n for n in ast.walk(gv.node) if isinstance(n, ast.DictComp)]
-    if comp:
-        c = comp[0]
+    # the mapping itself: the accumulation loop is brought into comprehension form by the loader; anything else is not the mapping
+    good = bool(o) and comp is not None
+    taken = None
+    if good:
+        c = comp
         t = norm(c.key)
-        good = good and len(comp) == 1 and len(c.generators) == 1 and norm(c.generators[0].target) == t and not c.generators[0].ifs and norm(c.generators[0].iter) == "mapped_variable_names" \
-            and isinstance(c.value, ast.IfExp) and norm(c.value.test) == f"{t} in argument_names" and norm(c.value.body) == f"f'_{{{t}}}'" and norm(c.value.orelse) == t
-    else:
-        good = False  # the accumulation loop is brought into comprehension form by the loader; anything else is not the mapping
+        v = strip_pre(c.value)
+        good = len(c.generators) == 1 and norm(c.generators[0].target) == t and not c.generators[0].ifs \
+            and isinstance(v, ast.IfExp) and isinstance(v.test, ast.Compare) and len(v.test.ops) == 1 and isinstance(v.test.ops[0], ast.In) and norm(v.test.left) == t \
+            and norm(v.body) == f"f'_{{{t}}}'" and norm(v.orelse) == t
+        if good:
+            taken = dr(v.test.comparators[0])
+            # `x in (A & set(M))` for x drawn from M is `x in A`
+            if isinstance(taken, ast.BinOp) and isinstance(taken.op, ast.BitAnd):
+                itx = norm(dr(c.generators[0].iter))
+                for side, other in ((taken.left, taken.right), (taken.right, taken.left)):
+                    sd = dr(side)
+                    inner = sd.args[0] if isinstance(sd, ast.Call) and isinstance(sd.func, ast.Name) and sd.func.id in ("set", "frozenset") and len(sd.args) == 1 else sd
+                    if norm(dr(inner)) == itx:
+                        taken = dr(other)
+                        break
     ctx.check(good and len(mapped_vals) >= 4, key(gv, "rename"), "template locals are not renamed when an argument has the same name", gv.loc(), okmsg=f"template locals {sorted(v for v in mapped_vals if v)} renamed on clash")
-    an = o[0].env.get("argument_names") if o else None
     p0 = gv.node.args.args[1].arg if len(gv.node.args.args) > 1 else "?"
-    good = an is not None and norm(an) in (f"set((arg.arg for arg in {p0}.args))", f"{{arg.arg for arg in {p0}.args}}")
+    from ..util import comp_struct as _cs
+    good = taken is not None and _cs(taken) is not None and _cs(taken) == ("$0.arg", [(f"{p0}.args", [])])
     am = repo.func("client_generators.client:ClientGenerator.add_method")
     cs = calls_named(am.node, "self.get_variable_names")
     envm = {st.targets[0].id if isinstance(st.targets[0], ast.Name) else norm(st.targets[0]): st.value for st in am.node.body if isinstance(st, ast.Assign)}
